@@ -12,7 +12,7 @@ ID = 'C04'
 POISON_WORD = 0x7ff8000000000000   # NaN
 RULE = ('count matrices: all n=2 over {0..3}, all n=3 over {0,1,2}, a 1/23 sample of n=4 binary patterns (T: + n=3 over {0,1,5}, n=4 binary off-diagonal with '
         'diagonal in {0,2}) with every row having outgoing counts x containers {ndarray,csr,csc,coo,lil,dok,dia,bsr (single block and multi-block)}_matrix '
-        'x prior_counts {None,1,0.5; asymmetric / row-normalised / triangular (n,n) arrays on every 3rd matrix} x calculate_eq_probs {T,F}; sparse reversible counts with 1000/1002 states (ARPACK population path); on every 3rd matrix additionally float64/int32 counts, '
+        'x prior_counts {None,1,0.5; asymmetric / row-normalised / triangular (n,n) arrays on every 3rd matrix} x calculate_eq_probs {T,F}; sparse reversible counts with 1000/1002 states (ARPACK population path); on every 3rd matrix additionally float64/int32 counts and counts scaled by 0.25 and 1e-3 (row totals inside (0,1)), '
         'Fortran-ordered and transposed-view dense input, and a second call on the same caller object; x builders {normalize,transpose,mle (mle: strongly '
         'connected only, all containers on every 5th matrix; Q: normalize/transpose use all 8 containers on every 4th '
         'matrix and {ndarray,csr,lil} on the rest)}; state=(matrix,container,prior,eq,builder); '
@@ -21,7 +21,7 @@ ASSUMPTIONS = ['tolerances: row sums 1e-12, detailed balance / stationarity 1e-9
                'stationarity asserted only for strongly connected inputs (unique stationary vector)',
                'scipy sparse *matrix* containers only (the property\'s list); sparse arrays are not in scope',
                'NEP-49 poison allocator fills fresh numpy buffers with NaN during the run']
-GUARDS = {'big_sparse': 8, 'array_prior': 300, 'float_counts': 500, 'dense_layouts': 200, 'sparse_in': 1000, 'prior': 1000, 'strongly_connected': 1000, 'not_strongly_connected': 100,
+GUARDS = {'fractional_row_totals': 300, 'big_sparse': 8, 'array_prior': 300, 'float_counts': 500, 'dense_layouts': 200, 'sparse_in': 1000, 'prior': 1000, 'strongly_connected': 1000, 'not_strongly_connected': 100,
           'mle_sparse': 100, 'eq_off': 1000}
 NSH = {'quick': 64, 'thorough': 256}
 CONTAINERS = ('ndarray', 'csr', 'csc', 'coo', 'lil', 'dok', 'dia', 'bsr', 'bsrblocks')
@@ -105,6 +105,9 @@ def snap(M):
 def check_case(case, ctx):
     from enspara.msm import builders
     C = np.array(case['C'])
+    if case.get('scale'):
+        C = C * case['scale']             # real-valued counts (re-weighted / down-scaled), row totals may lie in (0, 1)
+        ctx.guard('fractional_row_totals')
     cont, prior, eq, bname = case['container'], case['prior'], case['eq'], case['builder']
     n = len(C)
     ctx.ev()
@@ -112,7 +115,7 @@ def check_case(case, ctx):
         prior = prior_array(prior, n_ := len(C))
         ctx.guard('array_prior')
     sc = mr.strongly_connected(C + (0 if prior is None else prior))
-    key = (C.tobytes(), n, cont, repr(case['prior']), eq, bname, case.get('dtype', 'int64'))
+    key = (C.tobytes(), n, cont, repr(case['prior']), eq, bname, case.get('dtype', 'int64'), case.get('scale'))
     ctx.state(key, nontrivial=bool(sc and ((C == 0).any() or not np.array_equal(C, C.T))))
     ctx.guard('strongly_connected' if sc else 'not_strongly_connected')
     if not cont.startswith('ndarray'):
@@ -294,6 +297,10 @@ def run_shard(sh, ctx):
                             case = {'C': C.tolist(), 'container': cont, 'prior': prior, 'eq': True, 'builder': bname,
                                     'dtype': dtype, 'twice': True}
                             check_case(case, ctx)
+                        if dtype == 'float64':
+                            for scale in ((0.25, 0.001) if bname != 'mle' else (0.25,)):
+                                check_case({'C': C.tolist(), 'container': cont, 'prior': None, 'eq': True, 'builder': bname,
+                                            'dtype': 'float64', 'scale': scale}, ctx)
         if j % 499 == 0:
             ctx.sample(case)
 
